@@ -1,7 +1,7 @@
 """C11 — bootstrap samples are well-formed resamples of their source (DESIGN §4 C11)."""
 from __future__ import annotations
 
-from ..evalr import Obj
+from ..evalr import Obj, FuncV
 from ..spec import CONFIG, GROUP, SCORES, returns
 from ..terms import App, Const, Sym
 from ..evalr import Obj  # noqa: F811
@@ -488,8 +488,9 @@ def dispatch(ctx, chk):
             seen = []
 
             def stub(ev_, fi, bound):
+                # a spy: records the bound flags and lets the real sampler run (its result may be a tuple in any order or a NamedTuple)
                 seen.append(dict(bound))
-                return Tup([Sym("PI", ("array", "notnone")), Sym("NI", ("array", "notnone")), Sym("EPs", ("int", "notnone")), Sym("ENs", ("int", "notnone"))])
+                return NotImplemented
 
             ev.stubs[SI] = stub
             try:
@@ -517,6 +518,47 @@ def dispatch(ctx, chk):
         chk.unknown("R11.7", "only %d sampler dispatches analysed" % n)
 
 
+def sampler_result(v):
+    """(pos index draw, neg index draw, easy pos count, easy neg count) of a _sample_indices result BY ROLE: the private helper may return
+    them in any order or as a NamedTuple.  Roles: an index draw is an array-valued application (rng:choice / repeat / getitem ...), a count is a
+    scalar; pos vs neg by the source quantity the term is built from (len(pos) / Ep vs len(neg) / En); a NamedTuple by its field names.
+    None when the roles cannot be told apart."""
+    if isinstance(v, Obj) and {"pos_idx", "neg_idx"} <= set(v.attrs) and len(v.attrs) >= 4:
+        names = list(v.attrs)
+        ep = next((v.attrs[n] for n in names if "easy" in n and "pos" in n), None)
+        en = next((v.attrs[n] for n in names if "easy" in n and "neg" in n), None)
+        if ep is not None and en is not None:
+            return v.attrs["pos_idx"], v.attrs["neg_idx"], ep, en
+        return None
+    if not (isinstance(v, Tup) and len(v.items) == 4):
+        return None
+    items = list(v.items)
+
+    def is_index(t):
+        return isinstance(t, _A) and (t.fn in ("rng:choice", "rng:randint", "rng:integers", "repeat", "getitem", "sort", "arange", "concat", "nonzero", "flatnonzero", "where", "fresh")
+                                      or t.fn.startswith("rng:") and t.kwd("size") is not None and t.fn in ("rng:choice", "rng:randint", "rng:integers"))
+    idx = [t for t in items if is_index(t)]
+    cnt = [t for t in items if not is_index(t)]
+    if len(idx) != 2 or len(cnt) != 2:
+        return None
+
+    def side(t):
+        keys = {a.key for a in atoms_of(t)} | ({t.key} if hasattr(t, "key") else set())
+        p = bool(keys & {POS.key, EP.key, HP.key if hasattr(HP, "key") else ""}) or any("len(pos)" in k or "$pos" in k for k in keys)
+        n = bool(keys & {NEG.key, EN.key, HN.key if hasattr(HN, "key") else ""}) or any("len(neg)" in k or "$neg" in k for k in keys)
+        return "pos" if p and not n else "neg" if n and not p else None
+    out = {}
+    for kind, group in (("idx", idx), ("cnt", cnt)):
+        sides = [side(t) for t in group]
+        if sorted(x or "" for x in sides) == ["neg", "pos"]:
+            for t, sd in zip(group, sides):
+                out[(kind, sd)] = t
+        else:
+            # not separable by content (a joint draw mentions both classes): keep the declared order of appearance, positives first
+            out[(kind, "pos")], out[(kind, "neg")] = group
+    return out[("idx", "pos")], out[("idx", "neg")], out[("cnt", "pos")], out[("cnt", "neg")]
+
+
 def count_algebra(ctx, chk):
     ev = ctx.ev
     facts = [compare(">", HP, Const(0)), compare(">", HN, Const(0))]
@@ -527,9 +569,9 @@ def count_algebra(ctx, chk):
             outs = ctx.explore(lambda: ev.call(ctx.method(ctx.scores_obj("pos", "pos"), "_sample_indices"), [], {"by_label": Const(by_label), "single_pass": Const(False)}), chk)
             n = 0
             for o in outs:
-                if o.kind != "return" or not (isinstance(o.value, Tup) and len(o.value.items) == 4):
+                if o.kind != "return" or sampler_result(o.value) is None:
                     continue
-                pi, ni, ep_, en_ = o.value.items
+                pi, ni, ep_, en_ = sampler_result(o.value)
                 kp = pi.kwd("size") if isinstance(pi, _A) and pi.fn == "rng:choice" else None
                 kn = ni.kwd("size") if isinstance(ni, _A) and ni.fn == "rng:choice" else None
                 if kp is None or kn is None:
@@ -604,8 +646,9 @@ def draw_parameters(ctx, chk):
                         if sized:
                             bad = bad or ("a random size is drawn although the strata are fixed: %s(n=%s, p=%s)" % (sized[0]["fn"], show(sized[0]["kwargs"].get("n"), 60), show(sized[0]["kwargs"].get("p"), 60)),
                                           "no size draw with by_label (all four stratum sizes are the source's)")
-                        if isinstance(o.value, Tup) and len(o.value.items) == 4 and not (same(o.value.items[2], EP) and same(o.value.items[3], EN)):
-                            bad = bad or ("easy counts (%s, %s)" % (show(o.value.items[2], 60), show(o.value.items[3], 60)), "(Ep, En) as declared")
+                        sr_ = sampler_result(o.value)
+                        if sr_ is not None and not (same(sr_[2], EP) and same(sr_[3], EN)):
+                            bad = bad or ("easy counts (%s, %s)" % (show(sr_[2], 60), show(sr_[3], 60)), "(Ep, En) as declared")
                     else:
                         if len(sized) < 3:
                             bad = bad or ("%d size draws" % len(sized), "class size, easy positives, easy negatives")
